@@ -9,7 +9,7 @@ use qrlew::{ast, data_type::DataTyped as _, namer, relation::{Relation, Variant 
 use serde_json::{json, Value as J};
 use std::hash::{Hash, Hasher};
 
-const EXTRA: [(&str, bool); 25] = [
+const EXTRA: [(&str, bool); 28] = [
     ("SELECT random() AS r, a AS a FROM t1", false),
     ("SELECT a AS a FROM t1 WHERE random() < 0.5", false),
     ("SELECT a + 1, b * 2, a + 1 FROM t1", false),
@@ -38,6 +38,10 @@ const EXTRA: [(&str, bool); 25] = [
     ("SELECT concat(d, '-', d) AS s FROM t1", false),
     ("SELECT concat(g) AS s, greatest(a, f, 2) AS m FROM t2", false),
     ("SELECT concat('a', g, 'b', 'c') AS s, least(a, 1) AS m FROM t2", false),
+    // set operations whose two sides name their columns differently (the output names have to be made up)
+    ("SELECT a, b FROM t1 UNION SELECT a AS x, a - 2 AS y FROM t2", false),
+    ("SELECT a AS p, d AS q FROM t1 EXCEPT SELECT a AS r, g AS s FROM t2", false),
+    ("SELECT k AS u FROM t3 INTERSECT SELECT a AS v FROM t1", false),
 ];
 
 pub fn gen(rng: &mut Rng, k: usize, _tier: &str) -> J {
